@@ -1,7 +1,7 @@
 """Registry entry, manifest texts for C08."""
 
 ENTRY = {'parts': [{'scenario': 'scenarios.s_pool', 'chunk': 6}],
-         'quick': {'runs': 2500, 'budget': 55}, 'thorough': {'runs': 150000, 'budget': 1200}}
+         'quick': {'runs': 2500, 'budget': 40}, 'thorough': {'runs': 150000, 'budget': 1200}}
 
 TEXT = {'level': 'Seeded search over worker states x termination paths: terminate(), terminate() twice, finalizer '
           'without terminate (drop), with-block, terminate_job, operator SIGTERM/SIGHUP/SIGQUIT to a worker '
